@@ -33,6 +33,7 @@ def check(ctx, run):
                            'the parser', 'ill-formed input is silently repaired (U+FFFD substituted) instead of being rejected with an error',
                            only=lambda p_: p_.startswith(('util::', 'parser::', 'jsonpath::parser::', 'keypath::')))
     textparser.r02_3(ctx, run, rule='R16.6/R02.3')
+    textparser.r02_10(ctx, run, rule='R16.6/R02.10')
     import boundaries
     _bf = lambda p_: p_.startswith(('jsonpath::parser::', 'util::', 'keypath::'))
     boundaries.check(ctx, run, 'R16.10', [p_ for p_ in sorted(boundaries.load_baseline() or {}) if _bf(p_)], 'the key-path scanner rejects input')
